@@ -47,6 +47,7 @@ pub fn scripts() -> Vec<(&'static str, Vec<J>)> {
         ("droptable", vec![create.clone(), ctab.clone(), ins.clone(), ev("DropTable", json!({"table": t})), flush.clone()]),
         ("stream-small", vec![create.clone(), ev("WriteStream", json!({"name": cps("s"), "data": "g100_5"})), flush.clone()]),
         ("stream-large", vec![create.clone(), ev("WriteStream", json!({"name": cps("big"), "data": "g9000_6"})), into.clone()]),
+        ("stream-seek", vec![create.clone(), ev("WriteStreamSeek", json!({"name": cps("s"), "data": "g100_5"})), flush.clone(), ev("WriteStreamSeek", json!({"name": cps("big"), "data": "g9000_6"})), into.clone()]),
         ("summary", vec![create.clone(), ev("SetSummary", json!({"field": "author", "value": s("Bob")})), flush.clone()]),
         ("summary+pool", vec![create.clone(), flush.clone(), ev("SetSummary", json!({"field": "author", "value": s("Bob")})), ctab.clone(), ins.clone(), flush.clone()]),
         ("codepage", vec![create.clone(), ctab.clone(), ins.clone(), ev("SetCodepage", json!({"cp": 1252})), into.clone()]),
@@ -322,7 +323,8 @@ fn traced_rerun(script: &[J], f: Fault) -> Vec<String> {
             g.fault = saved;
         }
         let mut m = serde_json::Map::new();
-        m.insert("op".into(), e["op"].clone());
+        // (for the specification a stream written with a position query in between is a stream written)
+        m.insert("op".into(), if e["op"] == "WriteStreamSeek" { json!("WriteStream") } else { e["op"].clone() });
         m.insert("args".into(), if e["op"] == "Flush" || e["op"] == "IntoInner" || e["op"] == "Reopen" { json!({"x": 0}) } else { e["args"].clone() });
         m.insert("res".into(), json!(r));
         m.insert("st".into(), st);
